@@ -376,6 +376,8 @@ def rt_eval(features, route, o, st=None):
         cls = "roundtrip-differs:" + what
         if what.endswith(".default") or what.endswith(".has_default"):
             cls += M.default_detail(sm, path)
+            if "/type=scalar/" in cls:
+                cls += "/" + _string_retyping(e, g)
         sfx = rsfx
         if what.endswith(".description") or what.endswith(".reason"):
             facet = M.text_change_facet(e, g)
@@ -399,6 +401,37 @@ def rt_eval(features, route, o, st=None):
         # (a structural difference already explains a different second text)
         out.append(("not-fixpoint/%s%s" % (diff_facet(t1, r2[1]), rsfx), "options %s: first %r second %r" % ((opt_label(o),) + _first_diff(t1, r2[1]))))
     return out
+
+
+def _string_retyping(before, after):
+    """How the string leaves of a custom-scalar default changed (canonical values): the printer turned them into
+    Float literals (`"1e3"` -> 1000.0 -> "1000.0"), into Int literals, or something else."""
+    import re
+
+    pairs = []
+
+    def walk(x, y):
+        if isinstance(x, list) and isinstance(y, list) and len(x) == 2 and x[0] == "s" == y[0]:
+            if x[1] != y[1]:
+                pairs.append((x[1], y[1]))
+        elif isinstance(x, list) and isinstance(y, list) and len(x) == len(y):
+            for p, q in zip(x, y):
+                walk(p, q)
+        elif x != y:
+            pairs.append((None, None))
+
+    walk(before, after)
+    kinds = set()
+    for b, a in pairs:
+        if a is None:
+            kinds.add("other")
+        elif re.match(r"^-?[0-9]+$", a):
+            kinds.add("int")
+        elif re.match(r"^-?[0-9.]+(e[-+]?[0-9]+)?$", a):
+            kinds.add("float")
+        else:
+            kinds.add("other")
+    return "retyped-" + "+".join(sorted(kinds)) if kinds else "retyped-none"
 
 
 def diff_facet(a, b):
